@@ -21,7 +21,7 @@ def sh(cmd, cwd=None, env=None, timeout=3600):
 
 
 def build_tests(tree, bdir, btype="RelWithDebInfo", cxxflags=""):
-    rc, out = sh("cmake -G Ninja -S . -B %s -DCMAKE_BUILD_TYPE=%s %s -DFETCHCONTENT_TRY_FIND_PACKAGE_MODE=ALWAYS >/dev/null && cmake --build %s 2>&1 | tail -3"
+    rc, out = sh("cmake -G Ninja -S . -B %s -DCMAKE_BUILD_TYPE=%s %s -DFETCHCONTENT_TRY_FIND_PACKAGE_MODE=ALWAYS >/dev/null && cmake --build %s -j 6 2>&1 | tail -3"
                  % (bdir, btype, ("-DCMAKE_CXX_FLAGS=" + cxxflags) if cxxflags else "", bdir), cwd=tree)
     return rc, out
 
